@@ -382,9 +382,7 @@ func (s *Sched) schedule(from *thread) {
 		if t.finished {
 			continue
 		}
-		if !t.timer || t.started {
-			allDone = false
-		}
+		allDone = false
 		if t == from {
 			continue
 		}
@@ -393,13 +391,7 @@ func (s *Sched) schedule(from *thread) {
 		}
 	}
 	if allDone {
-		// only unfired timers (or nothing) left: the run is over; cancel the timers
-		for _, t := range s.threads {
-			if !t.finished && t.timer && !t.started {
-				t.finished = true
-				t.wake <- struct{}{}
-			}
-		}
+		// every thread (timers included: an armed timer eventually fires unless it was stopped) has finished
 		s.mu.Unlock()
 		s.finish()
 		return
